@@ -142,7 +142,7 @@ func c07sScenarios() []vh.SScenario {
 }
 
 func TestVerifC07S(t *testing.T) {
-	r := vres.Open("C07", "S")
+	r := vres.Open("C07", racePart("S"))
 	defer func() {
 		if err := r.Close(); err != nil {
 			t.Fatal(err)
